@@ -281,7 +281,7 @@ int main(int argc, char **argv) {
     int         n = 10, timeout_s = 120, scribble = 0, stop_after = -1, trace_on = 0, send_eos = 1, hdr = 1;
     int         skip_init = 0;
     uint32_t    pt_seed = 0;
-    int         pt_pm = 0, pt_us = 0;
+    int         pt_pm = 0, pt_us = 0, pt_target = 0;
     const char *sets[256];
     int         nsets = 0;
     g_w = 64, g_h = 64, g_bits = 8, g_kind = GV_MOTION, g_cseed = 1, g_pad_mode = 0;
@@ -302,7 +302,7 @@ int main(int argc, char **argv) {
         else if (!strcmp(a, "--pad")) { const char *v = NEXT; g_pad_mode = !strcmp(v, "rand") ? -1 : (int)strtol(v, 0, 0); }
         else if (!strcmp(a, "--scribble")) scribble = atoi(NEXT);
         else if (!strcmp(a, "--prefill")) prefill = NEXT;
-        else if (!strcmp(a, "--perturb")) { sscanf(NEXT, "%u:%d:%d", &pt_seed, &pt_pm, &pt_us); }
+        else if (!strcmp(a, "--perturb")) { sscanf(NEXT, "%u:%d:%d:%d", &pt_seed, &pt_pm, &pt_us, &pt_target); }
         else if (!strcmp(a, "--pts")) ptsmode = NEXT;
         else if (!strcmp(a, "--stop-after")) stop_after = atoi(NEXT);
         else if (!strcmp(a, "--no-eos")) send_eos = 0;
@@ -324,7 +324,8 @@ int main(int argc, char **argv) {
     }
     signal(SIGALRM, on_alarm);
     alarm((unsigned)timeout_s);
-    if (pt_pm) vrt_perturb(pt_seed, pt_pm, pt_us);
+    vrt_tid(); /* the application thread is thread 0 */
+    if (pt_pm) { vrt_perturb_target(pt_target); vrt_perturb(pt_seed, pt_pm, pt_us); }
 
     /* configuration memory with the requested prior contents */
     EbSvtAv1EncConfiguration *cfg = (EbSvtAv1EncConfiguration *)malloc(sizeof *cfg);
